@@ -213,6 +213,10 @@ def run(fx, R, tier):
             n_guards += len(S.acquisitions)
             for u in S.undecided:
                 R.undecided('L1', '%s::%s' % (erase_scalars(cq), name), u)
+            for (tl_loc, tl_fn) in getattr(S, 'trylocks', []):
+                R.violated('L6', '%s::%s:try-lock' % (erase_scalars(cq), name), '%s takes its mutex with std::try_to_lock: when another entry holds the mutex the operation is skipped and the caller gets the '
+                           'result of the failure path (an empty optional, a stale value, a dropped store) although every sequential ordering of the overlapping calls performs it - e.g. a value stored by a '
+                           'COMPLETED store() and not yet consumed is reported as absent by a consume() that overlaps the next store()' % short_fn(tl_fn), tl_loc, 'E-LOCK')
             for (m, loc, fnq, chain) in S.deadlocks:
                 R.violated('L4', '%s::%s:%s' % (erase_scalars(cq), name, disp(m[1:])),
                            'std::mutex %s re-acquired while already held (call chain %s): self-deadlock on every call' % (disp(m), ' -> '.join(short_fn(c) for c in chain)),
